@@ -1,5 +1,21 @@
 (* C02, store layer: the robin-hood unique table refines "finite set with stable identities
-   over an append-only arena".  See DESIGN.md §3 C02 (P). *)
+   over an append-only arena".  See DESIGN.md §3 C02 (P).
+   Road map:
+   - cyclic arithmetic on [0,c) in explicit case form ([nxt], [prd], [dist]; tactic [cyc]);
+   - contents of a slot array as a list of (id, hash) pairs up to permutation ([pays]);
+   - the invariant in local form: [slot_ok] = (i) psl is the cyclic distance from home and
+     (ii') the predecessor is occupied and at most one step richer; [RHloc] = every occupied slot
+     is [slot_ok]; consequences: [free_bound] (a free slot bounds every psl, so bumping never
+     wraps), [path] (the global form (ii) that makes the early exit sound), [psl_lt_count];
+   - [propagate_ok]: carrying an in-order entry to the first free slot preserves [RHloc] and the
+     contents, and never runs out of fuel; [propagate_then_overwrite] for get_or_insert's
+     "propagate the incumbent from its own slot, then overwrite" (via [propagate_comm]);
+   - [grow_fold] / [TI_grow]: the repaired grow re-establishes the invariant in the new array;
+   - table invariant [TI] for an arbitrary hash function (ids = positions of an arena without
+     duplicates, stored hash = H element, len = arena length < cap);
+     [probe_absent] / [probe_present] / [goi_spec] / [run_spec];
+   - theorems: [rh_refines_set], [rh_never_out_of_fuel], [arena_append_only(_step)],
+     [rh_refuted_pinned], [rh_get_by_hash_spec], [rh_total_small]. *)
 From Coq Require Import Bool NArith List Lia Arith Permutation.
 Import ListNotations.
 From RsddV Require Import Base.Util Generated.Constants Model.RobinHood.
